@@ -1,14 +1,44 @@
 """C04 — saved files are structurally well-formed and loadable.
 
-Proof (Props/C04.lean): see the theorem list in the evidence (`layout_disjoint`-family: the monotone
-cursor invariant of the three layout passes; alignment of address-less sections; equidistance and
-congruence on the writer domain).  Correspondence: saved bytes of harness vs model (family load).
+Proof (Props/C04.lean, helper lemmas Lemmas/Layout.lean) — for ANY number of sections and segments,
+by induction over the member lists and the ordered segment list, with explicit hypotheses:
+  no 64-bit wrap of the file cursor and ELF32 field fit (`layoutNW`, a Bool function following the
+  passes: every cursor update p -> p' has p.toNat <= p'.toNat, every stored offset < 2^32 in ELF32),
+  fewer than 2^16 sections, no file-occupying section with index 0 (section 0 is the NULL section).
+  Since fix d985122 `save` first makes all data resident; the layout hypotheses are stated on
+  `preSave o` (same header fields, `preSave_hdr`).
+ * layoutLoose_disjoint / layoutLoose_aligned — layout_sections_without_segments.
+ * wsd_monotone — write_segment_data: cursor monotone, generated members never re-placed, fresh members
+   between the cursor before and after, gen only gains trues.
+ * layout_disjoint — successful save, no writer-domain hypothesis: ELF header < program header table <=
+   every non-empty file-occupying section <= section header table, table 16-aligned, sections pairwise
+   disjoint; EVERY section is placed (get_ordered_segments returns a permutation). Offset-0 segments
+   (lseg_offset0) need no exclusion: members are still placed at the running cursor.
+ * layout_aligned — every section without explicit address starts at a multiple of max(align,1).
+ * file_covers — the saved stream reaches the section header table offset (hence every range) and the
+   end of every section header record (adjust_stream_size zero-fills); hypotheses: header buffer of
+   sizeof(Ehdr) bytes, table offset < 2^63 (signed streamoff) and fitting e_shoff, >= 1 section.
+ * per segment (pass level: member_equidistant, member_inside, segment_congruent, memsz_ge_filesz,
+   memsz_covers) and for the saved object (save_segments, save_memsz_ge_filesz, save_layoutOk), on the
+   writer domain `segDom`/`layoutDomB` (members count towards memsz, memsz neither wraps nor exceeds the
+   field, writer-assigned addresses fit): equidistance (exact, 64-bit), offset = vaddr mod align (the wrap
+   in `req - cur` is harmless for align <= 2^63), memsz >= filesz, memsz covers members under the side
+   condition `cov` = no explicit address on a NOBITS/empty member (F14), members inside the file range
+   under `ins` = no alignment gap before a NOBITS member (cf. F13).
+ * memsz_witness — F14 machine-checked on a concrete object (also the generated case f14-witness, an
+   open known finding).
+NOT proved (kept as `NestedSegmentStatement`): the member clauses for NESTED segments (members generated
+by an enclosing segment); for those only memsz >= filesz (save_memsz_ge_filesz). A TLS NOBITS member
+outside PT_TLS is outside `segDom`. "Flat" (member lists disjoint) is a per-turn decidable hypothesis
+(`segFlat`), not derived from a static predicate on the object.
+Correspondence: saved bytes of harness vs model (family load).
 Oracle: structural predicate on tools/elfspec.decode of the implementation's bytes: header, both
 tables and all file-occupying non-empty sections pairwise disjoint and inside the file; address-less
-sections aligned; members inside the segment's file range and equidistant; offset ≡ vaddr (mod align);
+sections aligned; members inside the segment's file range and equidistant; offset = vaddr (mod align);
 memsz >= filesz and covers allocated members.  Second half of the quantifier (re-saved form of loaded
 images): bundled examples and encoder images loaded then saved, same predicate without the
-program-specific clauses.
+program-specific clauses; the theorems are stated for arbitrary objects, so they apply to loaded
+objects whenever the (decidable) hypotheses hold.
 """
 from families.writercommon import *
 from families import c03 as _c03
@@ -22,7 +52,8 @@ THEOREMS = ["ElfioVerif.C04.layoutLoose_disjoint", "ElfioVerif.C04.layoutLoose_a
             "ElfioVerif.C04.member_equidistant", "ElfioVerif.C04.member_inside",
             "ElfioVerif.C04.segment_congruent", "ElfioVerif.C04.memsz_ge_filesz",
             "ElfioVerif.C04.memsz_covers", "ElfioVerif.C04.memsz_witness",
-            "ElfioVerif.C04.save_segments", "ElfioVerif.C04.save_layoutOk"]
+            "ElfioVerif.C04.save_segments", "ElfioVerif.C04.save_memsz_ge_filesz",
+            "ElfioVerif.C04.save_layoutOk", "ElfioVerif.C04.file_covers"]
 SITES = ["save_", "lsws", "lst_", "lseg", "wsd"]
 RULE = ("writer-domain programs (power-of-two alignments; segment members in address order, non-empty, allocated, "
         "no-bits only last; automatic or explicit non-overlapping addresses; nested segments starting at a "
